@@ -97,6 +97,8 @@ impl<const D: usize> ToroidalSpace<D> {
             return None;
         }
         let wrapped = v_f64.rem_euclid(period);
+        // `rem_euclid` can round up to `period` for tiny negative inputs; keep `[0, L)` half-open.
+        let wrapped = if wrapped >= period { 0.0 } else { wrapped };
         <T as NumCast>::from(wrapped)
     }
 }
@@ -115,7 +117,9 @@ impl<const D: usize> TopologicalSpace for ToroidalSpace<D> {
     fn canonicalize_point(&self, coords: &mut [f64]) {
         for (coord, &period) in coords.iter_mut().zip(self.domain.iter()) {
             if period.is_finite() && period > 0.0 {
-                *coord = coord.rem_euclid(period);
+                let wrapped = coord.rem_euclid(period);
+                // `rem_euclid` can round up to `period` for tiny negative inputs.
+                *coord = if wrapped >= period { 0.0 } else { wrapped };
             }
         }
     }
